@@ -360,9 +360,13 @@ func (c18) Gen(rng *rand.Rand, tier string, i int) *sim.Scenario {
 			}
 		}
 		var hops []sim.Hop
-		for t := 1; t <= between(rng, 1, 9); t++ {
+		maxHops, answered := 9, 0.75
+		if chance(rng, 0.08) {
+			maxHops, answered = 40, 0.3 // a long path through mostly silent routers
+		}
+		for t := 1; t <= between(rng, 1, maxHops); t++ {
 			h := sim.Hop{TTL: t}
-			if chance(rng, 0.75) {
+			if chance(rng, answered) {
 				h.Addr = pick(rng, pool...)
 			}
 			hops = append(hops, h)
